@@ -144,6 +144,16 @@ Example macro_int_literal_nonvacuous :
   macro_int_asis 64 64 false false [mk_tok TLit [48; 120; 49; 95; 48; 48; 48; 48; 95; 48; 48; 48; 48]] = Some (2 ^ 32).
 Proof. split; vm_compute; reflexivity. Qed.
 
+(** with a `base N` suffix the digits are digits of radix N even where they look like a radix prefix
+    (`0b101 base 16` = 0xb101, `0o17 base 32`, `0x1f base 36`); where the letter is no digit of N it is no literal *)
+Example macro_int_pseudo_prefix :
+  macro_int_asis 64 64 false false [mk_tok TLit [48; 98; 49; 48; 49]; mk_tok TIdent t_base; mk_tok TLit [49; 54]] = Some 45313 /\
+  macro_int_asis 64 32 false true [mk_tok TLit [48; 111; 49; 55]; mk_tok TIdent t_base; mk_tok TLit [51; 50]] = Some 24615 /\
+  macro_int_asis 64 64 true false [mk_tok TPunct [45]; mk_tok TLit [48; 120; 49; 102]; mk_tok TIdent t_base; mk_tok TLit [51; 54]] = Some (- 42819) /\
+  macro_int_asis 64 64 false false [mk_tok TLit [48; 120; 49; 48]; mk_tok TIdent t_base; mk_tok TLit [49; 48]] = None /\
+  macro_int_asis 64 64 false false [mk_tok TLit [48; 98; 49; 48; 49]; mk_tok TIdent t_base; mk_tok TLit [49; 49]] = None.
+Proof. repeat split; vm_compute; reflexivity. Qed.
+
 (** ... and it is the number the run-time parser of the same signedness returns for the text sign + value *)
 Lemma strip_sign_clean sg v : value_text_ok v = true -> strip_sign sg v = (Positive, v).
 Proof.
